@@ -26,6 +26,7 @@ type ModItem struct {
 
 // SiteAssert is an assertion attached to a program point identified by source text.
 type SiteAssert struct {
+	Assume bool   // an assumed fact (trusted, listed in the evidence) rather than an obligation
 	Where  string // "after" | "before"
 	Needle string // substring of the source line
 	Clause Clause
@@ -45,6 +46,7 @@ type FuncContract struct {
 	Decreases  map[int]Clause
 	Asserts    []SiteAssert
 	NI         []NIClause
+	ParamNames []string // functype contracts: parameter names from the header
 	Ghosts     []string // per-function hints / options
 	File       string
 	Line       int
@@ -163,6 +165,19 @@ func ParseFile(path, pkgPath string) (*File, error) {
 			return c, nil
 		}
 		switch kw {
+		case "functype":
+			// functype func(tr *tokenReader, b []byte) token — contract every value of this function type obeys
+			cur = &FuncContract{Name: "functype:" + strings.TrimSpace(rest), PkgPath: pkgPath, File: path, Line: ln,
+				Invariants: map[int][]Clause{}, Decreases: map[int]Clause{}, Assumed: true}
+			if i, j := strings.Index(rest, "("), strings.Index(rest, ")"); i >= 0 && j > i {
+				for _, part := range strings.Split(rest[i+1:j], ",") {
+					fs := strings.Fields(strings.TrimSpace(part))
+					if len(fs) >= 2 {
+						cur.ParamNames = append(cur.ParamNames, fs[0])
+					}
+				}
+			}
+			out.Funcs = append(out.Funcs, cur)
 		case "func", "interface", "assume-func":
 			cur = &FuncContract{Name: strings.TrimSpace(rest), PkgPath: pkgPath, File: path, Line: ln,
 				Invariants: map[int][]Clause{}, Decreases: map[int]Clause{}}
@@ -232,7 +247,7 @@ func ParseFile(path, pkgPath string) (*File, error) {
 			} else {
 				cur.Decreases[n] = c
 			}
-		case "assert":
+		case "assert", "assume":
 			if cur == nil {
 				return nil, fail(fmt.Errorf("assert outside func"))
 			}
@@ -256,7 +271,7 @@ func ParseFile(path, pkgPath string) (*File, error) {
 			if err != nil {
 				return nil, fail(err)
 			}
-			cur.Asserts = append(cur.Asserts, SiteAssert{Where: f[0], Needle: needle, Clause: c})
+			cur.Asserts = append(cur.Asserts, SiteAssert{Assume: kw == "assume", Where: f[0], Needle: needle, Clause: c})
 		case "noninterference":
 			if cur == nil {
 				return nil, fail(fmt.Errorf("noninterference outside func"))
